@@ -19,7 +19,7 @@ def main():
     print()
     print("| seeded change | what it changes | exit | failed obligations (those in **bold** were replayed with a failing input on the real code) |")
     print("|----|------|------|------|")
-    for dname in sorted(glob.glob(os.path.join(ROOT, "seeded", "C*-[ab]"))):
+    for dname in sorted(glob.glob(os.path.join(ROOT, "seeded", "C*-[a-z]"))):
         n = os.path.basename(dname)
         meta = json.load(open(os.path.join(dname, "meta.json")))
         rp = os.path.join(dname, "check_result.json")
